@@ -32,6 +32,22 @@ BUILT = {
         "seen."),
   design='DESIGN.md §4 C13',
   technique='deterministic simulation: seeded operation/fault histories against an executable reference model'),
+
+ 'C12': dict(
+  text=("Seeded search over histories (<=8, thorough <=12 operations) on a "
+        "set of live Simulation objects (original, copies, dict/file "
+        "reloads, restarts from the last saved file), in memory and "
+        "file-based, on the simulated pool, with injected save faults and "
+        "task failures; every observed outcome is compared with the same "
+        "operation on a freshly constructed simulation, and objects that "
+        "were not operated on must be unchanged."),
+  note=("Trusted: a freshly constructed Simulation running the canonical "
+        "flow (compute, misfit, gradient) is the reference; differences "
+        "below 1e3*tol relative are counted as probes, not violations. One "
+        "known finding (copies share file_dir) is listed in "
+        "known_findings.json."),
+  design='DESIGN.md §4 C12',
+  technique='deterministic simulation: seeded operation/fault histories incl. restart-from-durable-state, differential oracle against fresh objects'),
 }
 
 NA = {
